@@ -394,7 +394,13 @@ def agrees(v, ref, spread, k=64, floor_ulps=8):
     if ref == 0 and spread > mpf("1e-300"):
         return "skip"
     try:
-        vv = mpf(v)
+        if isinstance(v, complex) or hasattr(v, "imag") and getattr(v, "dtype", None) is not None and getattr(v.dtype, "kind", "") == "c":
+            # a complex constant in an unselected branch (asin(10) behind a guard) makes the whole array complex:
+            # x + 0j is the number x; a non-zero imaginary part is a wrong value
+            if v.imag != 0:
+                return "bad"
+            v = v.real
+        vv = mpf(float(v)) if not isinstance(v, (int, float)) and hasattr(v, "dtype") else mpf(v)
     except Exception:
         return "bad"
     if not _fin(vv):
